@@ -33,7 +33,8 @@ ANCHORS = ['recursiveloader:ManifestRecursiveLoader.assert_directory_verifies',
            'recursiveloader:SubprocessVerifier._verify_one_file',
            'cli:verify_failure', 'verify:get_file_metadata']
 REQUIRED = ['recursiveloader:SubprocessVerifier._verify_one_file', 'handler_calls',
-            'cli_runs', 'cli_multi_runs', 'walk_permuted', 'stress_runs', 'loop_runs']
+            'cli_runs', 'cli_multi_runs', 'walk_permuted', 'stress_runs', 'loop_runs',
+            'structural_cli_runs']
 ASSUMPTIONS = ['the Manifest chain is intact and duplicates agree in this workload '
                '(a broken chain / conflict is raised directly, C01/C02)',
                'handler return values are True / False / None']
@@ -53,6 +54,8 @@ def units(tier, seed):
         u.append({'k': 'stress', 'i': i})
     for i in range(10 if tier == 'quick' else 200):
         u.append({'k': 'loop', 'i': i})
+    for i in range(9 if tier == 'quick' else 90):
+        u.append({'k': 'structural', 'i': i})
     # trees an order of magnitude larger and three times deeper, many offenders
     for i in range(6 if tier == 'quick' else 300):
         u.append({'k': 'gen', 'i': 100000 + i, 'n': 2, 'big': True})
@@ -395,8 +398,79 @@ def exec_loop(ctx, names, policy, walk_seed):
                       % (policy, ret, len(rec.calls)), case)
 
 
+def exec_structural_cli(ctx, what, order, walk_seed):
+    """`gemato verify --keep-going` on a tree with a structural problem (symlink
+    loop, conflicting duplicate entries, a directory on another file system with
+    -x), alone and next to a clean tree on the same command line: the exit status
+    must not be 0."""
+    import logging
+    from gemato import cli as gcli
+    with common.Scratch('vf-c07s-') as d:
+        bad, good = os.path.join(d, 'bad'), os.path.join(d, 'good')
+        for r in (bad, good):
+            os.makedirs(os.path.join(r, 'sub', 'in'))
+            with open(os.path.join(r, 'sub', 'in', 'f'), 'w') as f:
+                f.write('data')
+            with open(os.path.join(r, 'Manifest'), 'w') as f:
+                f.write(mtext.render([mtext.file_entry('DATA', 'sub/in/f', b'data',
+                                                       ['SHA1'])]))
+        extra = []
+        if what == 'loop':
+            os.symlink('..', os.path.join(bad, 'sub', 'in', 'up'))
+        elif what == 'incompatible':
+            with open(os.path.join(bad, 'Manifest'), 'a') as f:
+                f.write('DATA sub/in/f 5 SHA1 %s\n' % ('0' * 40))
+        else:
+            other = '/dev/shm' if os.path.isdir('/dev/shm') and os.stat(
+                '/dev/shm').st_dev != os.stat(bad).st_dev else None
+            if other is None:
+                ctx.count('structural_xdev_unavailable')
+                return
+            tgt = os.path.join(other, 'vf-c07-x-%d' % os.getpid())
+            os.makedirs(tgt, exist_ok=True)
+            with open(os.path.join(tgt, 'g'), 'w') as f:
+                f.write('g')
+            os.symlink(tgt, os.path.join(bad, 'sub', 'far'))
+            extra = ['-x']
+        case = {'kind': 'structural', 'what': what, 'order': order,
+                'walk_seed': walk_seed}
+        ctx.case(sig=('structural', what, order), case=case, klass='structural')
+        ctx.count('structural_cli_runs')
+        paths = {'alone': [bad], 'first': [bad, good], 'last': [good, bad]}[order]
+        logging.getLogger().setLevel(logging.CRITICAL)
+        try:
+            with walkperm.WalkPermuter(walk_seed, budget=2000):
+                try:
+                    rc = gcli.main(['gemato', 'verify', '-P', '-k'] + extra + paths)
+                except SystemExit as exc:
+                    rc = exc.code
+        except walkperm.BudgetExceeded:
+            ctx.violation('loop-not-terminating', 'CLI walk exceeded 2000 steps', case)
+            return
+        except Exception as exc:
+            ctx.violation('structural-cli-raises:' + adapt.exc_key(exc),
+                          '`verify -k` let %r escape' % (exc,), case)
+            return
+        finally:
+            if what == 'xdev' and extra:
+                common.rmtree(tgt)
+        if rc == 0:
+            ctx.violation('structural-problem-exit-0:' + what, '`gemato verify -k%s %s` '
+                          'exits 0 although the tree has a %s' % (
+                              ' -x' if extra else '', ' '.join(
+                                  os.path.basename(p) for p in paths), what), case)
+
+
+def run_structural(u, ctx):
+    rng = common.rng_for(ctx.seed, ID, 'structural', u['i'])
+    exec_structural_cli(ctx, ['loop', 'incompatible', 'xdev'][u['i'] % 3],
+                        ['alone', 'first', 'last'][(u['i'] // 3) % 3],
+                        rng.randrange(1 << 30))
+
+
 def run_unit(u, ctx):
-    {'gen': run_gen, 'stress': run_stress, 'loop': run_loop}[u['k']](u, ctx)
+    {'gen': run_gen, 'stress': run_stress, 'loop': run_loop,
+     'structural': run_structural}[u['k']](u, ctx)
 
 
 def replay(case, ctx):
@@ -405,6 +479,9 @@ def replay(case, ctx):
         return
     if case.get('kind') == 'loop':
         exec_loop(ctx, case['names'], case['policy'], case['walk_seed'])
+        return
+    if case.get('kind') == 'structural':
+        exec_structural_cli(ctx, case['what'], case['order'], case['walk_seed'])
         return
     with common.Scratch('vf-c07-') as d:
         root = os.path.join(d, 't')
